@@ -155,4 +155,99 @@ theorem c12_table_nontrivial :
     (Generated.table.filter fun e => match e.body, e.maxInputs with
       | .list [.copyFromInput 2], some 3 => true | _, _ => false).length ≥ 1 := by decide +kernel
 
+/-! ## Static metadata: where `StaticSound` is really needed (audit M2) -/
+
+/-- An inferred label overwrites whatever the model file declared for that value
+(`update_value_type`): for a labelled id the optimizer's label does not depend on `static` at all, so
+a wrong `value_info` dtype on a value that receives an inferred label is harmless. -/
+theorem c12_label_overwrites_static (static static' : NodeId → Option VType) (types : TypeMap) (id : NodeId)
+    (t : VType) (h : types.get id = some t) : label static types id = some t ∧ label static' types id = some t := by
+  simp [label, h]
+
+/-- `StaticSound` cannot be dropped for values that receive NO inferred label (producer without
+rules, or with an input of unknown type): `x` (undeclared, float at run time) → `Identity` → `m`
+declared int32 by a lying `value_info` → `Cast(to = int32)`. No label is inferred for `m`, the
+guard reads the declaration and the needed Cast is removed. The harness reproduces exactly this
+on the real optimizer (bucket `lying_value_info_changed_output`; classified as an inconsistent model
+file, not a defect: rten trusts declared types, and ONNX requires typed graph inputs). -/
+theorem c12_lying_value_info_drops_cast :
+    let static : NodeId → Option VType := fun id => if id = 1 then some (.tensor .int32) else none
+    let plan : List OpNode := [{ rules := some [.copyFromInput 0], inputs := [some 0], outputs := [some 1] }]
+    propagate false static plan [] = some [] ∧
+    castElimGuard (label static [] 1) .int32 = true ∧
+    castOp (fun _ _ (p : Nat) => p + 1) .int32 (RtValue.tensor .float 7) ≠ some (RtValue.tensor .float 7) := by
+  decide
+
+/-- With a declared (sound) input the same lying `value_info` is overwritten and the Cast stays. -/
+theorem c12_lying_value_info_overwritten :
+    let static : NodeId → Option VType := fun id =>
+      if id = 0 then some (.tensor .float) else if id = 1 then some (.tensor .int32) else none
+    let plan : List OpNode := [{ rules := some [.copyFromInput 0], inputs := [some 0], outputs := [some 1] }]
+    ∃ types, propagate false static plan [] = some types ∧ label static types 1 = some (.tensor .float) ∧
+      castElimGuard (label static types 1) .int32 = false := by
+  exact ⟨[(1, .tensor .float)], by decide, by decide, by decide⟩
+
+/-! ## The plan's rules are the generated table's rules (audit M3) -/
+
+/-- One operator of a graph as the harness / driver describes it: table key, dtype attributes,
+input and output ids. -/
+structure OpSpec where
+  key : String
+  attrs : Attrs
+  inputs : List (Option NodeId)
+  outputs : List (Option NodeId)
+
+/-- The `OpNode` whose rule list is what the generated table gives for this operator
+(`none`: unknown key, opaque body or missing attribute). -/
+def OpSpec.toNode (table : List Entry) (o : OpSpec) : Option OpNode :=
+  (findEntry table o.key).bind fun e =>
+    (e.body.rules o.attrs o.outputs.length).map fun r => { rules := r, inputs := o.inputs, outputs := o.outputs }
+
+def planOfTable (table : List Entry) : List OpSpec → Option (List OpNode)
+  | [] => some []
+  | o :: os =>
+    match o.toNode table with
+    | none => none
+    | some n =>
+      match planOfTable table os with
+      | none => none
+      | some ns => some (n :: ns)
+
+theorem mem_planOfTable (table : List Entry) : ∀ (specs : List OpSpec) (plan : List OpNode),
+    planOfTable table specs = some plan → ∀ op ∈ plan, ∃ o ∈ specs, o.toNode table = some op := by
+  intro specs
+  induction specs with
+  | nil => intro plan h op hop; simp only [planOfTable] at h; cases h; simp at hop
+  | cons o os ih =>
+    intro plan h op hop
+    simp only [planOfTable] at h
+    cases hn : o.toNode table with
+    | none => simp [hn] at h
+    | some n =>
+      simp only [hn] at h
+      cases hr : planOfTable table os with
+      | none => simp [hr] at h
+      | some ns =>
+        simp only [hr] at h; cases h
+        rcases List.mem_cons.mp hop with rfl | hmem
+        · exact ⟨o, by simp, hn⟩
+        · obtain ⟨o', ho', hn'⟩ := ih ns hr op hmem
+          exact ⟨o', by simp [ho'], hn'⟩
+
+/-- **C12.T1 over the generated table**: for a graph described by table keys, if every operator's
+TABLE rule (`Body.rules` of its `Generated.table` entry, instantiated with its attributes and output
+count) is sound for the execution, every propagated label is the run-time type. This is the form in
+which the leaf hypothesis is discharged by the harness: its `rules` lines show that the table rule
+equals the rule object the live operator returns, its `lab` lines that the rule predicts the
+produced dtype. -/
+theorem c12_propagation_sound_table (rt : RtTyping) (strict : Bool) (static : NodeId → Option VType)
+    (hs : StaticSound rt static) (specs : List OpSpec) (plan : List OpNode) (types : TypeMap)
+    (hplan : planOfTable Generated.table specs = some plan)
+    (hleaf : ∀ o ∈ specs, ∀ n, o.toNode Generated.table = some n → RuleSound rt n)
+    (h : propagate strict static plan [] = some types) : Sound rt types := by
+  refine c12_propagation_sound rt strict static hs plan [] types (by intro id t h; simp [TypeMap.get] at h) ?_ h
+  intro op hop
+  obtain ⟨o, ho, hn⟩ := mem_planOfTable Generated.table specs plan hplan op hop
+  exact hleaf o ho op hn
+
 end RtenVerif.OutputTypes
